@@ -1,6 +1,7 @@
 import Goyang.Lemmas.Augment
 import Goyang.Lemmas.AugmentReport
 import Goyang.Spec.Tree
+import Goyang.Lemmas.OrderIndep
 /-
 C07 — the ERROR LIST of the augment loop.
 
@@ -30,6 +31,8 @@ open Goyang.Model Goyang.Spec.Augment Goyang.Lemmas.AugmentConfl Goyang.Lemmas.A
   Goyang.Lemmas.AugmentModel Goyang.Lemmas.AugmentStep Goyang.Lemmas.AugmentLoop Goyang.Lemmas.Augment
   Goyang.Lemmas.AugmentReport
 open Goyang.Spec.Tree (KeysUnique keysUniqueHere everyNode everyNodeL)
+open Goyang.Lemmas.OrderIndep (errLt errLt_irrefl errLt_trans errLt_total canonErrs_eq)
+open Goyang.Lemmas.SortUnique (WSorted sortBy_sorted sortBy_perm sorted_perm_unique lt_asymm)
 
 /-! ### `KeysUnique` -/
 
@@ -870,5 +873,495 @@ theorem attempt_errs (R : Res) (id : Nat) (nsOf : String) (a : Entry) (f : Fores
               · exact Or.inr h
               · exact Or.inl (Or.inr (Or.inl h))
               · exact Or.inl (Or.inr (Or.inr h))
+
+/-! ### an induction principle for the loop -/
+
+section Induct
+variable (R : Res) (I : Forest → List Ev → Prop) (P : Nat → Entry → Prop)
+  (hstep : ∀ id nsOf a f tr, P id a → I f tr →
+    I (attemptR R id false nsOf a f).1 (if (attemptR R id false nsOf a f).2 then tr ++ [⟨id, a, f⟩] else tr))
+include hstep
+
+theorem fold_induct (id : Nat) (nsOf : String) (tr0 : List Ev) : ∀ (l : List Entry) (acc : Acc), (∀ a ∈ l, P id a) →
+    I acc.forest (tr0 ++ acc.trace) →
+    I (l.foldl (stepR R id false nsOf) acc).forest (tr0 ++ (l.foldl (stepR R id false nsOf) acc).trace)
+  | [], _, _, h => h
+  | a :: l, acc, hP, h => by
+    simp only [List.foldl_cons]
+    apply fold_induct id nsOf tr0 l _ (fun b hb => hP b (List.mem_cons_of_mem _ hb))
+    have := hstep id nsOf a acc.forest (tr0 ++ acc.trace) (hP a List.mem_cons_self) h
+    unfold stepR
+    cases hr : (attemptR R id false nsOf a acc.forest).2 with
+    | true => simpa [hr, List.append_assoc] using this
+    | false => simpa [hr] using this
+
+theorem tree_induct (id : Nat) (s : PState) (tr0 : List Ev) (hP : ∀ a ∈ s.pendingOf id, P id a) (h : I s.forest tr0) :
+    I (augmentTreeR R id false s).1.forest (tr0 ++ (augmentTreeR R id false s).2.2.2) := by
+  have := fold_induct R I P hstep id (nsOfR R s.forest id) tr0 (s.pendingOf id) ⟨s.forest, [], 0, 0, []⟩ hP (by simpa using h)
+  exact this
+
+theorem pass_induct : ∀ (fuel : Nat) (mods : Array Nat) (i processed : Nat) (s : PState) (tr : List Ev),
+    (∀ id a, a ∈ s.pendingOf id → P id a) → I s.forest tr →
+    I (augmentPassR R fuel mods i processed s tr).2.2.1.forest (augmentPassR R fuel mods i processed s tr).2.2.2
+  | 0, _, _, _, _, _, _, h => h
+  | fuel + 1, mods, i, processed, s, tr, hP, h => by
+    unfold augmentPassR
+    by_cases hi : i < mods.size
+    · simp only [hi, dite_true]
+      have h1 := tree_induct R I P hstep mods[i] s tr (fun a ha => hP _ a ha) h
+      have hP1 : ∀ id a, a ∈ (augmentTreeR R mods[i] false s).1.pendingOf id → P id a :=
+        fun id a ha => hP id a (augmentTreeR_pending_sub R _ false s id a ha)
+      split
+      · exact pass_induct fuel _ _ _ _ _ hP1 h1
+      · exact pass_induct fuel _ _ _ _ _ hP1 h1
+    · simp only [hi, dite_false]; exact h
+
+theorem loop_induct : ∀ (fuel : Nat) (mods : Array Nat) (s : PState) (tr : List Ev),
+    (∀ id a, a ∈ s.pendingOf id → P id a) → I s.forest tr →
+    I (augmentLoopR R fuel mods s tr).2.1.forest (augmentLoopR R fuel mods s tr).2.2
+  | 0, _, _, _, _, h => h
+  | fuel + 1, mods, s, tr, hP, h => by
+    unfold augmentLoopR
+    split
+    · exact h
+    · have h1 := pass_induct R I P hstep (mods.size + 1) mods 0 0 s tr hP h
+      have hP1 : ∀ id a, a ∈ (augmentPassR R (mods.size + 1) mods 0 0 s tr).2.2.1.pendingOf id → P id a :=
+        fun id a ha => hP id a (augmentPassR_pending_sub R _ _ _ _ _ _ id a ha)
+      simp only
+      split
+      · exact h1
+      · exact loop_induct fuel _ _ _ hP1 h1
+
+end Induct
+
+/-- The loop only extends the forest (no hypothesis on the pending table needed). -/
+theorem loop_le (R : Res) (fuel : Nat) (mods : Array Nat) (s : PState) (tr : List Ev) :
+    FLe s.forest (augmentLoopR R fuel mods s tr).2.1.forest := by
+  refine loop_induct R (fun f _ => FLe s.forest f) (fun _ _ => True) ?_ fuel mods s tr (fun _ _ _ => trivial) (FLe.refl _)
+  intro id nsOf a f tr _ h
+  cases hr : attemptR R id false nsOf a f with
+  | mk f' b =>
+    cases b with
+    | false => exact h.trans (attempt_fail hr).2.1
+    | true => exact h.trans (attempt_ok_le hr)
+
+theorem pass_le (R : Res) (fuel : Nat) (mods : Array Nat) (i processed : Nat) (s : PState) (tr : List Ev) :
+    FLe s.forest (augmentPassR R fuel mods i processed s tr).2.2.1.forest := by
+  refine pass_induct R (fun f _ => FLe s.forest f) (fun _ _ => True) ?_ fuel mods i processed s tr (fun _ _ _ => trivial)
+    (FLe.refl _)
+  intro id nsOf a f tr _ h
+  cases hr : attemptR R id false nsOf a f with
+  | mk f' b =>
+    cases b with
+    | false => exact h.trans (attempt_fail hr).2.1
+    | true => exact h.trans (attempt_ok_le hr)
+
+/-! ### the error set of the loop -/
+
+/-- What one applied augment contributes to the errors: the errors recorded inside the augment
+entry, and the `duplicate-node` error at its statement exactly when the application collided. -/
+def Contrib (R : Res) (ev : Ev) (er : Err) : Prop :=
+  er ∈ ev.aug.allErrors ∨ (er = dupErr ev.aug ∧ Bad R ev.owner ev.aug ev.before)
+
+/-- The `other` error of `Find`: some pending augment of an existing tree has a first prefix that
+denotes no module. -/
+def OtherErr (R : Res) (s : PState) (er : Err) : Prop :=
+  er = Err.bare "other" ∧ ∃ id a, a ∈ s.pendingOf id ∧ R.tgt id a = .badPrefix ∧ (s.forest.tree? id).isSome = true
+
+theorem isSome_tree?_iff (f : Forest) (id : Nat) : (f.tree? id).isSome = true ↔ id ∈ ids f := by
+  unfold Forest.tree? ids
+  simp only [Option.isSome_map, List.find?_isSome, List.mem_map, beq_iff_eq]
+
+/-- The invariant of the loop, relative to the state `s0` it started from. -/
+def Inv (R : Res) (s0 : PState) (f : Forest) (tr : List Ev) : Prop :=
+  ids f = ids s0.forest ∧
+  ((∀ ev ∈ tr, ∀ c ∈ ev.aug.dir, KeysUnique c) →
+    FKU f ∧ (∀ er, FErr s0.forest er → FErr f er) ∧ (∀ ev ∈ tr, ∀ er, Contrib R ev er → FErr f er) ∧
+    (∀ er, FErr f er → FErr s0.forest er ∨ OtherErr R s0 er ∨ ∃ ev ∈ tr, Contrib R ev er))
+
+theorem inv_step (R : Res) (s0 : PState) (id : Nat) (nsOf : String) (a : Entry) (f : Forest) (tr : List Ev)
+    (hP : a ∈ s0.pendingOf id) (h : Inv R s0 f tr) :
+    Inv R s0 (attemptR R id false nsOf a f).1 (if (attemptR R id false nsOf a f).2 then tr ++ [⟨id, a, f⟩] else tr) := by
+  have hout := attempt_errs R id nsOf a f
+  generalize attemptR R id false nsOf a f = r at hout ⊢
+  obtain ⟨hids, hinv⟩ := h
+  cases hout with
+  | fail f' h1 h2 h3 =>
+    simp only [Bool.false_eq_true, if_false]
+    refine ⟨h1.trans hids, fun hb => ?_⟩
+    obtain ⟨k1, k2, k3, k4⟩ := hinv hb
+    refine ⟨h2 k1, fun er he => (h3 k1 er).mpr (Or.inl (k2 er he)),
+      fun ev hev er hc => (h3 k1 er).mpr (Or.inl (k3 ev hev er hc)), ?_⟩
+    intro er he
+    rcases (h3 k1 er).mp he with h4 | ⟨h4, h5, h6⟩
+    · exact k4 er h4
+    · refine Or.inr (Or.inl ⟨h4, id, a, hP, h5, ?_⟩)
+      rw [isSome_tree?_iff] at h6 ⊢
+      rw [← hids]; exact h6
+  | ok f' h1 h2 h3 =>
+    simp only [if_true]
+    refine ⟨h1.trans hids, fun hb => ?_⟩
+    have hb0 : ∀ ev ∈ tr, ∀ c ∈ ev.aug.dir, KeysUnique c := fun ev hev => hb ev (List.mem_append_left _ hev)
+    have hba : ∀ c ∈ a.dir, KeysUnique c := hb ⟨id, a, f⟩ (by simp)
+    obtain ⟨k1, k2, k3, k4⟩ := hinv hb0
+    refine ⟨h2 k1 hba, fun er he => (h3 k1 er).mpr (Or.inl (k2 er he)), ?_, ?_⟩
+    · intro ev hev er hc
+      rcases List.mem_append.mp hev with hev | hev
+      · exact (h3 k1 er).mpr (Or.inl (k3 ev hev er hc))
+      · simp only [List.mem_singleton] at hev
+        subst hev
+        exact (h3 k1 er).mpr (Or.inr hc)
+    · intro er he
+      rcases (h3 k1 er).mp he with h4 | h4
+      · rcases k4 er h4 with h5 | h5 | ⟨ev, hev, h5⟩
+        · exact Or.inl h5
+        · exact Or.inr (Or.inl h5)
+        · exact Or.inr (Or.inr ⟨ev, List.mem_append_left _ hev, h5⟩)
+      · exact Or.inr (Or.inr ⟨⟨id, a, f⟩, by simp, h4⟩)
+
+/-- The loop keeps the invariant: ids, `KeysUnique`, and the two-sided bound on the error set. -/
+theorem loop_inv (R : Res) (fuel : Nat) (mods : Array Nat) (s : PState) (hku : FKU s.forest) :
+    Inv R s (loopState R fuel mods s).forest (loopTrace R fuel mods s) := by
+  refine loop_induct R (Inv R s) (fun id a => a ∈ s.pendingOf id) ?_ fuel mods s [] (fun _ _ h => h) ?_
+  · intro id nsOf a f tr hP h
+    exact inv_step R s id nsOf a f tr hP h
+  · exact ⟨rfl, fun _ => ⟨hku, fun _ h => h, by simp, fun er h => Or.inl h⟩⟩
+
+/-! ### a bad first prefix is reported in the first pass -/
+
+theorem attempt_badPrefix (R : Res) (id : Nat) (nsOf : String) (a : Entry) (f : Forest) (htg : R.tgt id a = .badPrefix) :
+    attemptR R id false nsOf a f = (addOther f id, false) := by
+  unfold attemptR findR
+  simp [htg, failForest]
+
+theorem addOther_other (f : Forest) (id : Nat) (h : (f.tree? id).isSome = true) :
+    FVisErr (addOther f id) (Err.bare "other") := by
+  unfold addOther
+  cases hr : f.tree? id with
+  | none => simp [hr] at h
+  | some root =>
+    refine ⟨id, _, tree?_setTree_same hr _, [], _, rfl, ?_⟩
+    simp [Entry.addErr]
+
+theorem foldRel_other {R : Res} {id : Nat} {nsOf : String} {f f' : Forest} {l U : List Entry} {tr : List Ev}
+    (h : FoldRel R id false nsOf f l f' U tr) (a : Entry) (ha : a ∈ l) (htg : R.tgt id a = .badPrefix)
+    (hid : (f.tree? id).isSome = true) : FVisErr f' (Err.bare "other") := by
+  induction h with
+  | nil f => cases ha
+  | @fail f f1 f'' b l U tr hatt hrest ih =>
+    rcases List.mem_cons.mp ha with rfl | ha
+    · rw [attempt_badPrefix R id nsOf a f htg] at hatt
+      simp only [Prod.mk.injEq, and_true] at hatt
+      subst hatt
+      exact (addOther_other f id hid).mono (FoldRel.le hrest)
+    · exact ih ha (by rw [(attempt_fail hatt).2.1.isSome]; exact hid)
+  | @ok f f1 f'' b l U tr hatt hrest ih =>
+    rcases List.mem_cons.mp ha with rfl | ha
+    · rw [attempt_badPrefix R id nsOf a f htg] at hatt
+      simp at hatt
+    · exact ih ha (by rw [(attempt_ok_le hatt).isSome]; exact hid)
+
+theorem pass_other (R : Res) (id : Nat) (a : Entry) (htg : R.tgt id a = .badPrefix) :
+    ∀ (fuel : Nat) (mods : Array Nat) (i processed : Nat) (s : PState) (tr : List Ev), mods.size - i ≤ fuel →
+      id ∈ mods.toList.drop i → a ∈ s.pendingOf id → (s.forest.tree? id).isSome = true →
+      FVisErr (augmentPassR R fuel mods i processed s tr).2.2.1.forest (Err.bare "other")
+  | 0, mods, i, processed, s, tr, hf, hm, _, _ => by
+    have : mods.toList.drop i = [] := List.drop_eq_nil_of_le (by simp; omega)
+    rw [this] at hm; cases hm
+  | fuel + 1, mods, i, processed, s, tr, hf, hm, ha, hid => by
+    unfold augmentPassR
+    by_cases hi : i < mods.size
+    · simp only [hi, dite_true]
+      obtain ⟨f1, U, tr1, hrel, hval, hp⟩ := augmentTreeR_spec R mods[i] false s
+      have hforest : (augmentTreeR R mods[i] false s).1.forest = f1 := by rw [hval]; rfl
+      by_cases hid' : id = mods[i]
+      · -- this call attempts `a`
+        have hG : FVisErr (augmentTreeR R mods[i] false s).1.forest (Err.bare "other") := by
+          rw [hforest]
+          subst hid'
+          exact foldRel_other hrel a ha htg hid
+        split
+        · exact hG.mono (pass_le R fuel _ _ _ _ _)
+        · exact hG.mono (pass_le R fuel _ _ _ _ _)
+      · have ha1 : a ∈ (augmentTreeR R mods[i] false s).1.pendingOf id := by
+          rw [hp]; simp only [hid', if_false]; exact ha
+        have hid1 : ((augmentTreeR R mods[i] false s).1.forest.tree? id).isSome = true := by
+          rw [hforest, (FoldRel.le hrel).isSome]; exact hid
+        have hdrop : id ∈ mods.toList.drop (i + 1) := by
+          have hil : i < mods.toList.length := by simpa using hi
+          rw [List.drop_eq_getElem_cons hil] at hm
+          rcases List.mem_cons.mp hm with h | h
+          · exact absurd (by simpa using h) hid'
+          · exact h
+        split
+        · have hil : i < mods.toList.length := by simpa using hi
+          obtain ⟨_, _, h3, h4⟩ := swapRemove_spec mods.toList i hil
+          apply pass_other R id a htg fuel _ i _ _ _ ?_ ?_ ha1 hid1
+          · have : ((mods.set i (mods.back?.getD 0) hi).pop).size + 1 = mods.size := by
+              have := congrArg List.length (swapRemove_toList mods i hi)
+              simp only [Array.length_toList] at this
+              rw [this]; simpa using h4
+            omega
+          · rw [swapRemove_toList]; exact h3 id hdrop
+        · exact pass_other R id a htg fuel mods (i + 1) _ _ _ (by omega) hdrop ha1 hid1
+    · have : mods.toList.drop i = [] := List.drop_eq_nil_of_le (by simp; omega)
+      rw [this] at hm; cases hm
+
+theorem loop_other (R : Res) (fuel : Nat) (mods : Array Nat) (s : PState) (hcov : Cover s mods) (hfuel : 0 < fuel)
+    (id : Nat) (a : Entry) (ha : a ∈ s.pendingOf id) (htg : R.tgt id a = .badPrefix)
+    (hid : (s.forest.tree? id).isSome = true) : FVisErr (loopState R fuel mods s).forest (Err.bare "other") := by
+  obtain ⟨n, rfl⟩ : ∃ n, fuel = n + 1 := ⟨fuel - 1, by omega⟩
+  have hmem : id ∈ mods.toList := hcov id (by intro h; rw [h] at ha; cases ha)
+  unfold loopState augmentLoopR
+  split
+  · rename_i he
+    have hnil : mods.toList = [] := by simpa using he
+    rw [hnil] at hmem; cases hmem
+  · have hG := pass_other R id a htg (mods.size + 1) mods 0 0 s [] (by omega) (by simpa using hmem) ha hid
+    simp only
+    split
+    · exact hG
+    · exact hG.mono (loop_le R n _ _ _)
+
+theorem fVisErr_fErr {f : Forest} {er : Err} (h : FVisErr f er) : FErr f er := by
+  obtain ⟨id, root, hr, hv⟩ := h
+  exact ⟨id, root, hr, hv.allErrors⟩
+
+/-- **The error set of the loop**, for a forest with unique keys and applied augment bodies with
+unique keys: an error is recorded in the final forest exactly when it was recorded before the loop,
+or it is the `other` error of an unresolvable first prefix, or it is the contribution of an applied
+augment: an error recorded inside the augment entry, or the `duplicate-node` error at its statement
+when — and only when — the application collided. -/
+theorem loop_fErr (R : Res) (fuel : Nat) (mods : Array Nat) (s : PState) (hcov : Cover s mods) (hfuel : 0 < fuel)
+    (hku : FKU s.forest) (hbody : ∀ ev ∈ loopTrace R fuel mods s, ∀ c ∈ ev.aug.dir, KeysUnique c) (er : Err) :
+    FErr (loopState R fuel mods s).forest er ↔
+      FErr s.forest er ∨ OtherErr R s er ∨ ∃ ev ∈ loopTrace R fuel mods s, Contrib R ev er := by
+  obtain ⟨_, hinv⟩ := loop_inv R fuel mods s hku
+  obtain ⟨_, k2, k3, k4⟩ := hinv hbody
+  constructor
+  · exact k4 er
+  · rintro (h | ⟨h, id, a, ha, htg, hid⟩ | ⟨ev, hev, h⟩)
+    · exact k2 er h
+    · rw [h]; exact fVisErr_fErr (loop_other R fuel mods s hcov hfuel id a ha htg hid)
+    · exact k3 ev hev er h
+
+/-- The same on the error sweep `allErrs` (what `GetErrors` collects), for a forest with one tree per id. -/
+theorem loop_errs (R : Res) (fuel : Nat) (mods : Array Nat) (s : PState) (hcov : Cover s mods) (hfuel : 0 < fuel)
+    (hids : (ids s.forest).Nodup) (hku : ∀ t ∈ s.forest.trees, KeysUnique t.2)
+    (hbody : ∀ ev ∈ loopTrace R fuel mods s, ∀ c ∈ ev.aug.dir, KeysUnique c) (er : Err) :
+    er ∈ allErrs (loopState R fuel mods s).forest ↔
+      er ∈ allErrs s.forest ∨ OtherErr R s er ∨ ∃ ev ∈ loopTrace R fuel mods s, Contrib R ev er := by
+  have hids' : (ids (loopState R fuel mods s).forest).Nodup := by
+    rw [(loop_inv R fuel mods s (fku_of_all hku)).1]; exact hids
+  rw [← fErr_iff_allErrs hids', ← fErr_iff_allErrs hids]
+  exact loop_fErr R fuel mods s hcov hfuel (fku_of_all hku) hbody er
+
+/-! ### errors of applied augments are visible (no uniqueness needed) -/
+
+theorem importErrors_own (x a : Entry) {er : Err} (h : er ∈ a.allErrors) : er ∈ (x.importErrors a).d.errors := by
+  cases a with
+  | mk d c i o =>
+    simp only [Entry.allErrors, List.mem_append] at h
+    simp only [Entry.importErrors, Entry.addErrs, withD_d, mk_d, mk_dir, mk_inp, mk_out, List.mem_append]
+    rcases h with ((h | h) | h) | h
+    · exact Or.inr (Or.inl (Or.inl (Or.inr h)))
+    · exact Or.inr (Or.inl (Or.inr h))
+    · exact Or.inr (Or.inr h)
+    · exact Or.inr (Or.inl (Or.inl (Or.inl h)))
+
+/-- A successful attempt leaves every error recorded inside the augment entry on a visible node
+(the target). -/
+theorem attempt_ok_imports {R : Res} {id : Nat} {ae : Bool} {nsOf : String} {a : Entry} {f f' : Forest}
+    (h : attemptR R id ae nsOf a f = (f', true)) {er : Err} (her : er ∈ a.allErrors) : FVisErr f' er := by
+  have hout := attemptR_outcome R id ae nsOf a f
+  rw [h] at hout
+  generalize hfe : (f', true) = res at hout
+  cases hout with
+  | fail _ _ _ _ _ => simp at hfe
+  | ok t names f1 root' q x htg hv1 hle1 ht1 hx hcan =>
+    simp only [Prod.mk.injEq, and_true] at hfe
+    subst hfe
+    have hnp := merge_namePres (some nsOf) a
+    have ht2 : (f1.setTree t (root'.updateAt q fun te => te.merge (some nsOf) a)).tree? t =
+        some (root'.updateAt q fun te => te.merge (some nsOf) a) := tree?_setTree_same ht1 _
+    refine ⟨t, _, ht2, names, (x.merge (some nsOf) a).d, ?_, ?_⟩
+    · simp [fullAt, (hx.update hnp).walk]
+    · rw [merge_eq]; exact fold_mstep_errors_mono _ _ _ _ (importErrors_own x a her)
+
+theorem chain_imports {R : Res} {f0 f f' : Forest} {tr : List Ev} (h : Chain R f0 f tr f') :
+    ∀ ev ∈ tr, ∀ er ∈ ev.aug.allErrors, FVisErr f' er := by
+  induction h with
+  | nil _ _ => intro ev hev; cases hev
+  | @cons f f2 f' ev tr hv hle hatt hrest ih =>
+    intro ev' hev' er her
+    rcases List.mem_cons.mp hev' with rfl | hev'
+    · exact (attempt_ok_imports hatt her).mono hrest.le
+    · exact ih ev' hev' er her
+
+/-- When the loop ends without any recorded error, no applied augment entry carried one. -/
+theorem loop_clean_bodies (R : Res) (fuel : Nat) (mods : Array Nat) (s : PState) (hn : NodupPending s)
+    (hcov : Cover s mods) (hfuel : mu s < fuel) (hclean : allErrs (loopState R fuel mods s).forest = []) :
+    ∀ ev ∈ loopTrace R fuel mods s, ev.aug.allErrors = [] := by
+  intro ev hev
+  apply List.eq_nil_iff_forall_not_mem.mpr
+  intro er her
+  have := fVisErr_allErrs (chain_imports (loop_run R fuel mods s hn hcov hfuel).1 ev hev er her)
+  rw [hclean] at this
+  cases this
+
+/-! ### order independence of the error list -/
+
+theorem evFree_iff (R : Res) (f0 : Forest) (ev : Ev) : EvFree R f0 ev ↔ ¬ Bad R ev.owner ev.aug ev.before := by
+  unfold EvFree Bad absEv
+  constructor
+  · rintro ⟨h1, h2⟩ (h | h)
+    · exact h h1
+    · exact h2 h
+  · intro h
+    exact ⟨Classical.byContradiction fun hn => h (Or.inl hn), fun hc => h (Or.inr hc)⟩
+
+theorem contrib_free {R : Res} {f0 : Forest} {ev : Ev} (h : EvFree R f0 ev) (er : Err) :
+    Contrib R ev er ↔ er ∈ ev.aug.allErrors := by
+  unfold Contrib
+  constructor
+  · rintro (h1 | ⟨_, h2⟩)
+    · exact h1
+    · exact absurd h2 ((evFree_iff R f0 ev).mp h)
+  · exact Or.inl
+
+theorem otherErr_congr (R : Res) {s1 s2 : PState} (hforest : s2.forest = s1.forest)
+    (hpend : ∀ id a, a ∈ s2.pendingOf id ↔ a ∈ s1.pendingOf id) (er : Err) : OtherErr R s2 er ↔ OtherErr R s1 er := by
+  unfold OtherErr
+  rw [hforest]
+  constructor
+  · rintro ⟨h, id, a, ha, h1, h2⟩; exact ⟨h, id, a, (hpend id a).mp ha, h1, h2⟩
+  · rintro ⟨h, id, a, ha, h1, h2⟩; exact ⟨h, id, a, (hpend id a).mpr ha, h1, h2⟩
+
+theorem mem_trace_of_key {tr1 tr2 : List Ev} (hkeys : ∀ x, x ∈ tr2.map Ev.key ↔ x ∈ tr1.map Ev.key) {ev : Ev}
+    (hev : ev ∈ tr2) : ∃ ev1 ∈ tr1, ev1.owner = ev.owner ∧ ev1.aug = ev.aug := by
+  have := (hkeys (Ev.key ev)).mp (List.mem_map.mpr ⟨ev, hev, rfl⟩)
+  obtain ⟨ev1, hev1, hk⟩ := List.mem_map.mp this
+  simp only [Ev.key, Prod.mk.injEq] at hk
+  exact ⟨ev1, hev1, hk.1, hk.2⟩
+
+/-- **Order independence on the error list.**  Two runs of the loop from the same forest over the
+same pending sets (any module lists, any order inside the pending lists).  If no application of the
+first collides, both runs end with the same set of recorded errors. -/
+theorem loop_errs_confluent (R : Res) (fuel1 fuel2 : Nat) (mods1 mods2 : Array Nat) (s1 s2 : PState)
+    (hforest : s2.forest = s1.forest) (hpend : ∀ id a, a ∈ s2.pendingOf id ↔ a ∈ s1.pendingOf id)
+    (hn1 : NodupPending s1) (hn2 : NodupPending s2) (hcov1 : Cover s1 mods1) (hcov2 : Cover s2 mods2)
+    (hfuel1 : mu s1 < fuel1) (hfuel2 : mu s2 < fuel2)
+    (hids : (ids s1.forest).Nodup) (hku : ∀ t ∈ s1.forest.trees, KeysUnique t.2)
+    (hbody : ∀ ev ∈ loopTrace R fuel1 mods1 s1, ∀ c ∈ ev.aug.dir, KeysUnique c)
+    (hfr1 : ∀ ev ∈ loopTrace R fuel1 mods1 s1, EvFree R s1.forest ev) (er : Err) :
+    er ∈ allErrs (loopState R fuel2 mods2 s2).forest ↔ er ∈ allErrs (loopState R fuel1 mods1 s1).forest := by
+  obtain ⟨_, _, hfr2, hkeys⟩ := loop_confluent_free R fuel1 fuel2 mods1 mods2 s1 s2 hforest hpend hn1 hn2 hcov1 hcov2
+    hfuel1 hfuel2 hfr1
+  have hkeys' : ∀ x, x ∈ (loopTrace R fuel1 mods1 s1).map Ev.key ↔ x ∈ (loopTrace R fuel2 mods2 s2).map Ev.key :=
+    fun x => (hkeys x).symm
+  have hbody2 : ∀ ev ∈ loopTrace R fuel2 mods2 s2, ∀ c ∈ ev.aug.dir, KeysUnique c := by
+    intro ev hev
+    obtain ⟨ev1, hev1, _, h2⟩ := mem_trace_of_key hkeys hev
+    rw [← h2]; exact hbody ev1 hev1
+  rw [loop_errs R fuel1 mods1 s1 hcov1 (by omega) hids hku hbody er,
+    loop_errs R fuel2 mods2 s2 hcov2 (by omega) (by rw [hforest]; exact hids) (by rw [hforest]; exact hku) hbody2 er,
+    hforest, otherErr_congr R hforest hpend er]
+  have hex : (∃ ev ∈ loopTrace R fuel2 mods2 s2, Contrib R ev er) ↔ ∃ ev ∈ loopTrace R fuel1 mods1 s1, Contrib R ev er := by
+    constructor
+    · rintro ⟨ev, hev, hc⟩
+      obtain ⟨ev1, hev1, _, h2⟩ := mem_trace_of_key hkeys hev
+      refine ⟨ev1, hev1, (contrib_free (hfr1 ev1 hev1) er).mpr ?_⟩
+      rw [h2]; exact (contrib_free (hfr2 ev hev) er).mp hc
+    · rintro ⟨ev, hev, hc⟩
+      obtain ⟨ev2, hev2, _, h2⟩ := mem_trace_of_key hkeys' hev
+      refine ⟨ev2, hev2, (contrib_free (hfr2 ev2 hev2) er).mpr ?_⟩
+      rw [h2]; exact (contrib_free (hfr1 ev hev) er).mp hc
+  rw [hex]
+
+/-- One direction of "one order ends without errors iff the other does".  Only augment entries
+WITHOUT recorded errors are asked to have unique keys (those with errors are never applied in a
+clean run). -/
+theorem loop_clean_imp (R : Res) (fuel1 fuel2 : Nat) (mods1 mods2 : Array Nat) (s1 s2 : PState)
+    (hforest : s2.forest = s1.forest) (hpend : ∀ id a, a ∈ s2.pendingOf id ↔ a ∈ s1.pendingOf id)
+    (hn1 : NodupPending s1) (hn2 : NodupPending s2) (hcov1 : Cover s1 mods1) (hcov2 : Cover s2 mods2)
+    (hfuel1 : mu s1 < fuel1) (hfuel2 : mu s2 < fuel2)
+    (hids : (ids s1.forest).Nodup) (hku : ∀ t ∈ s1.forest.trees, KeysUnique t.2)
+    (hbody : ∀ id, ∀ a ∈ s1.pendingOf id, a.allErrors = [] → ∀ c ∈ a.dir, KeysUnique c)
+    (hclean : allErrs (loopState R fuel1 mods1 s1).forest = []) :
+    allErrs (loopState R fuel2 mods2 s2).forest = [] := by
+  have hfree : ∀ er, FVisErr (loopState R fuel1 mods1 s1).forest er → er.cls ≠ "duplicate-node" := by
+    intro er h
+    have := fVisErr_allErrs h
+    rw [hclean] at this; cases this
+  have hfr1 := chain_free_of_no_dup_err (loop_run R fuel1 mods1 s1 hn1 hcov1 hfuel1).1 hfree
+  have hbook1 := (loop_run R fuel1 mods1 s1 hn1 hcov1 hfuel1).2.1
+  have hclean1 := loop_clean_bodies R fuel1 mods1 s1 hn1 hcov1 hfuel1 hclean
+  have hbody1 : ∀ ev ∈ loopTrace R fuel1 mods1 s1, ∀ c ∈ ev.aug.dir, KeysUnique c :=
+    fun ev hev => hbody ev.owner ev.aug (hbook1.fromPending ev hev) (hclean1 ev hev)
+  apply List.eq_nil_iff_forall_not_mem.mpr
+  intro er her
+  have := (loop_errs_confluent R fuel1 fuel2 mods1 mods2 s1 s2 hforest hpend hn1 hn2 hcov1 hcov2 hfuel1 hfuel2 hids hku
+    hbody1 hfr1 er).mp her
+  rw [hclean] at this
+  cases this
+
+/-! ### the canonical error list is a function of the error SET -/
+
+deriving instance ReflBEq, LawfulBEq for Err
+
+/-- Strictly ascending in the order `canonErrs` sorts with. -/
+abbrev SSorted (l : List Err) : Prop := l.Pairwise fun a b => errLt a b = true
+
+theorem eraseDups_ssorted : ∀ (n : Nat) (l : List Err), l.length ≤ n → WSorted errLt l → SSorted l.eraseDups := by
+  intro n
+  induction n with
+  | zero =>
+    intro l h _
+    have : l = [] := List.length_eq_zero_iff.mp (Nat.le_zero.mp h)
+    subst this
+    simp
+  | succ n ih =>
+    intro l h hs
+    cases l with
+    | nil => simp
+    | cons a as =>
+      rw [List.eraseDups_cons]
+      have hs' := List.pairwise_cons.mp hs
+      refine List.pairwise_cons.mpr ⟨?_, ?_⟩
+      · intro b hb
+        have hb' : b ∈ as.filter (fun b => !b == a) := List.mem_eraseDups.mp hb
+        obtain ⟨hb1, hb2⟩ := List.mem_filter.mp hb'
+        have hne : a ≠ b := by
+          intro hab; subst hab; simp at hb2
+        rcases errLt_total hne with h1 | h1
+        · exact h1
+        · rw [hs'.1 b hb1] at h1; cases h1
+      · apply ih
+        · exact Nat.le_trans (List.length_filter_le _ _) (by simpa using h)
+        · exact hs'.2.sublist List.filter_sublist
+
+theorem ssorted_ext {l1 l2 : List Err} (h1 : SSorted l1) (h2 : SSorted l2) (hm : ∀ x, x ∈ l1 ↔ x ∈ l2) : l1 = l2 := by
+  have nd : ∀ {l : List Err}, SSorted l → l.Nodup := by
+    intro l h
+    exact h.imp (fun {a b} hab heq => by subst heq; rw [errLt_irrefl] at hab; cases hab)
+  have ws : ∀ {l : List Err}, SSorted l → WSorted errLt l := by
+    intro l h
+    exact h.imp (fun {a b} hab => lt_asymm errLt errLt_irrefl errLt_trans hab)
+  have hp : l1.Perm l2 := (List.perm_ext_iff_of_nodup (nd h1) (nd h2)).mpr hm
+  exact sorted_perm_unique errLt hp (fun a _ b _ hne => errLt_total hne) (ws h1) (ws h2)
+
+theorem canonErrs_ssorted (l : List Err) : SSorted (canonErrs l) := by
+  rw [canonErrs_eq]
+  exact eraseDups_ssorted _ _ (Nat.le_refl _)
+    (sortBy_sorted errLt errLt_irrefl errLt_trans l (fun a _ b _ hne => errLt_total hne))
+
+theorem mem_canonErrs_iff (l : List Err) (x : Err) : x ∈ canonErrs l ↔ x ∈ l := by
+  rw [canonErrs_eq, List.mem_eraseDups]
+  exact (sortBy_perm errLt l).mem_iff
+
+/-- `canonErrs` is a function of the SET of errors. -/
+theorem canonErrs_set_invariant {l1 l2 : List Err} (h : ∀ x, x ∈ l1 ↔ x ∈ l2) : canonErrs l1 = canonErrs l2 :=
+  ssorted_ext (canonErrs_ssorted l1) (canonErrs_ssorted l2)
+    (fun x => by rw [mem_canonErrs_iff, mem_canonErrs_iff]; exact h x)
 
 end Goyang.Lemmas.AugmentErrs
